@@ -195,6 +195,9 @@ def run_core(prop, tier, seed, t0, replay_item=None):
                           "gnutar": prop == "C05" and (tier == "thorough" or i % 4 == 0)})
     if replay_item is None and prop == "C01":
         items.append(symlink_witness())
+    if replay_item is None and prop == "C02":
+        # known finding K06: handles that stay open across other calls are write-back caches bound to a path
+        items.append({"id": "C02-witness-K06", "cfg": {"rs": 20}, "conc": {}, "steps": [], "oracles": ["C02"], "pool": "plain", "gen": "witness", "witness": "handles"})
     res, crashed = core.run_batches(runner, "replay", items, per_batch=6 if tier == "quick" else 12,
                                     timeout=2400)
     by_id = {it["id"]: it for it in items}
